@@ -36,7 +36,7 @@ class BadURIError(CapConstraintError):
 BASE32STR_128bits = b'(%s{25}%s)' % (base32.BASE32CHAR, base32.BASE32CHAR_3bits)
 BASE32STR_256bits = b'(%s{51}%s)' % (base32.BASE32CHAR, base32.BASE32CHAR_1bits)
 
-NUMBER=b'([0-9]+)'
+NUMBER=b'(0|[1-9][0-9]*)'
 
 
 class _BaseURI:
